@@ -1,6 +1,6 @@
+From Coq Require Import ZArith List Bool Lia. From MS Require Import PyBase Bits ByteFacts BufferAbs Schc Parsers ParserTiling RfcHeaders ParserRfc. Import ListNotations. Open Scope Z_scope.
 (* ParserRfcSctp.v -- C08 for SCTP: on every well-formed packet (RfcHeaders.v) parse_sctp returns exactly the
    field list of the RFC 9260 layout and consumes the whole packet; next-protocol prediction to SCTP. *)
-From Coq Require Import ZArith List Bool Lia. From MS Require Import PyBase Bits ByteFacts BufferAbs Schc Parsers ParserTiling RfcHeaders ParserRfc. Import ListNotations. Open Scope Z_scope.
 
 (* ---- arithmetic of lengths and padding ---------------------------------------------------------- *)
 Lemma pad_chunk n : 0 <= n -> (32 - (n * 8) mod 32) mod 32 = pad_bits n.
